@@ -147,7 +147,7 @@ Definition ht_spec_violations (cs : list ht_case) : N := N.of_nat (List.length (
 Inductive ty_case :=
 | TyTypep (kind : string) (type_of_obs : string) (obs : list (string * N))   (* typep of one object for many type symbols *)
 | TySub (d1 d2 : tdes) (obs : N).                                          (* 0 nil, 1 t, 2 fault/error *)
-Definition sres_code (r : sres) : N := match r with SBool b => b2n b | SFault => 2%N end.
+Definition sres_code (r : sres) : N := match r with SBool b => b2n b end.
 Definition check_ty_case (t kt : ctable) (c : ty_case) : N :=
   match c with
   | TyTypep k tobs obs =>
@@ -161,7 +161,7 @@ Definition check_ty_case (t kt : ctable) (c : ty_case) : N :=
       (* on symbols naming registered classes subtypep must answer; reflexivity on the observation *)
       let law := match d1, d2 with
                  | DSym a, DSym b => N.ltb o 2 && (negb (String.eqb (lower a) (lower b) && mem (lower a) (names t)) || N.eqb o 1)
-                 | _, _ => true
+                 | _, _ => N.ltb o 2
                  end in
       code agree law
   end.
